@@ -66,14 +66,14 @@ func initTemplates(config Config, apiRefCollector *common.APIReferenceCollector)
 		}),
 		template.Funcs(template.FuncMap{
 			"maybeAsPointer": func(intoType ast.Type, variableName string) string {
-				if intoType.Nullable && !intoType.IsAnyOf(ast.KindArray, ast.KindMap, ast.KindComposableSlot) {
+				if declaredAsPointer(intoType) {
 					return "&" + variableName
 				}
 
 				return variableName
 			},
 			"maybeDereference": func(typeDef ast.Type) string {
-				if typeDef.Nullable && !typeDef.IsAnyOf(ast.KindArray, ast.KindMap, ast.KindComposableSlot) {
+				if declaredAsPointer(typeDef) {
 					return "*"
 				}
 
@@ -112,4 +112,19 @@ func formattingTemplateFuncs(config Config) template.FuncMap {
 			return "any"
 		},
 	}
+}
+
+// declaredAsPointer tells whether the type formatter declares `typeDef` as a
+// pointer: a nullable type, except the kinds that already have a nil value of
+// their own (collections, composable slots, `any` and bytes are never given a `*`).
+func declaredAsPointer(typeDef ast.Type) bool {
+	if !typeDef.Nullable || typeDef.IsAnyOf(ast.KindArray, ast.KindMap, ast.KindComposableSlot) {
+		return false
+	}
+
+	if typeDef.IsAny() {
+		return false
+	}
+
+	return !(typeDef.IsScalar() && typeDef.AsScalar().ScalarKind == ast.KindBytes)
 }
